@@ -30,6 +30,14 @@ partial def parseVal (j : Json) : Except String Val := do
       | _ => throw "dict entry"
     return .dict ents
   | .error _ => pure ()
+  match j.getObjVal? "z" with
+  | .ok v =>
+    let ents ← (← arr v).mapM fun e => do
+      match e with
+      | .arr #[k, x] => pure ((← nat k), (← parseVal x))
+      | _ => throw "lazy entry"
+    return .lazy ents (← nat (← field j "len"))
+  | .error _ => pure ()
   throw s!"bad value {j.compress}"
 
 partial def valToJson : Val → Json
@@ -119,6 +127,7 @@ def parseStep (j : Json) : Except String Step := do
       pure (.batch (some k))
   | "unbatch" => pure .unbatch
   | "finalize" => pure .finalize
+  | "cycle" => pure (.cycle (← nat (← field j "after")))
   | f => throw s!"bad step {f}"
 
 def parseCfg (j : Json) : Except String Cfg := do
@@ -156,7 +165,31 @@ def interToJson (I : Inter) : Json :=
 observables the harness extracts from the real pipeline), `hyp` (the hypotheses of
 `chain_aligned` hold for this case) and `spec` (the model's output is aligned with its input). -/
 def handle (req : Json) : Except String Json := do
+  -- op "values": Python `==` on a list of values as the model sees it, and the shape predicates of the injectivity theorems
+  if (match req.getObjVal? "op" with | .ok (Json.str "values") => true | _ => false) then
+    let rows ← (← arr (← field req "rows")).mapM parseVal
+    return obj [("eq", ofList (fun a => ofList (fun b => Json.bool (pyEq a b)) rows) rows),
+                ("denseCat", Json.bool (denseCatShapeB rows)),
+                ("flatten", Json.bool (flattenShapeB rows)),
+                ("denseOnly", ofList (fun a => Json.bool (denseOnly a)) rows),
+                ("wf", ofList (fun a => Json.bool (wfNoLazy a)) rows),
+                ("distinct", Json.bool (distinctB rows))]
   let stream ← (← arr (← field req "stream")).mapM parseInter
+  -- op "table": the look-up table a Densify object holds after it has filtered `stream` (having been asked for `prior` before)
+  if (match req.getObjVal? "op" with | .ok (Json.str "table") => true | _ => false) then
+    let n ← nat (← field req "n")
+    let c ← bool (← field req "c")
+    let a ← bool (← field req "a")
+    let prior ← strList (fieldD req "prior" (Json.arr #[]))
+    let cfg ← parseCfg (fieldD req "cfg" (Json.mkObj []))
+    match primeKeys (.lookup []) (initDState n) prior with
+    | .error e => return obj [("error", Json.str (errName e))]
+    | .ok T =>
+      match densifyRun cfg (.lookup []) n c a (firstCallable (·.rewards) stream) (firstCallable (·.feedbacks) stream) T stream with
+      | .error e => return obj [("error", Json.str (errName e))]
+      | .ok (_, T') =>
+        return obj [("table", ofList (fun (p : String × Nat) => Json.arr #[Json.str p.1, ofNat p.2]) T'.table),
+                    ("keys", ofList Json.str (keysAsked c a stream))]
   let chain ← (← arr (← field req "chain")).mapM parseStep
   let cfg ← parseCfg (fieldD req "cfg" (Json.mkObj []))
   let S0 : State := { stream := stream }
